@@ -4,6 +4,7 @@ import (
 	"context"
 	"crypto/rand"
 	"encoding/binary"
+	"errors"
 	"fmt"
 	"net"
 	"sync"
@@ -662,26 +663,44 @@ func (s *Server) handleRelease(msg *Message, addr *net.UDPAddr) {
 	ctx := context.Background()
 
 	// Release lease
+	released := true
 	s.leasesMu.Lock()
 	if lease, ok := s.leases[clientDUID]; ok {
 		if lease.Address != nil {
-			s.releaseAddress(ctx, clientDUID)
+			if err := s.releaseAddress(ctx, clientDUID); err != nil {
+				released = false
+			} else {
+				lease.Address = nil
+			}
 		}
 		if lease.Prefix != nil {
-			s.releasePrefix(ctx, clientDUID)
+			if err := s.releasePrefix(ctx, clientDUID); err != nil {
+				released = false
+			} else {
+				lease.Prefix = nil
+			}
 		}
-		delete(s.leases, clientDUID)
+		// What the allocator could not release is still allocated to this client:
+		// the lease that records it has to stay, or nothing would ever release it
+		// (a later Release finds no lease and releases nothing).
+		if released {
+			delete(s.leases, clientDUID)
+		}
 	}
 	s.leasesMu.Unlock()
 
 	// Send Reply
+	status := MakeStatusCodeOption(StatusSuccess, "Released")
+	if !released {
+		status = MakeStatusCodeOption(StatusUnspecFail, "Release failed")
+	}
 	response := &Message{
 		Type:          MsgTypeReply,
 		TransactionID: msg.TransactionID,
 		Options: []Option{
 			MakeClientIDOption(clientIDOpt.Data),
 			MakeServerIDOption(s.serverDUID),
-			MakeStatusCodeOption(StatusSuccess, "Released"),
+			status,
 		},
 	}
 	s.sendResponse(response, addr)
@@ -1106,38 +1125,44 @@ func (s *Server) allocatePrefix(ctx context.Context, clientDUID string, iaid uin
 	return nil, fmt.Errorf("no prefix pool configured")
 }
 
-// releaseAddress releases an IPv6 address allocation.
-func (s *Server) releaseAddress(ctx context.Context, clientDUID string) {
+// releaseAddress releases an IPv6 address allocation. An error means the
+// allocation is still in place (an allocator that holds nothing for the client
+// is not an error: there is nothing left to release).
+func (s *Server) releaseAddress(ctx context.Context, clientDUID string) error {
 	if s.addressAllocator != nil {
-		if err := s.addressAllocator.Release(ctx, clientDUID); err != nil {
-			s.logger.Debug("Failed to release address from allocator",
+		if err := s.addressAllocator.Release(ctx, clientDUID); err != nil && !errors.Is(err, allocator.ErrNotAllocated) {
+			s.logger.Warn("Failed to release address from allocator",
 				zap.String("duid", clientDUID),
 				zap.Error(err),
 			)
+			return err
 		}
-		return
+		return nil
 	}
 
 	if s.addressPool != nil {
 		s.addressPool.Release(clientDUID)
 	}
+	return nil
 }
 
-// releasePrefix releases an IPv6 prefix allocation.
-func (s *Server) releasePrefix(ctx context.Context, clientDUID string) {
+// releasePrefix releases an IPv6 prefix allocation (errors as releaseAddress).
+func (s *Server) releasePrefix(ctx context.Context, clientDUID string) error {
 	if s.prefixAllocator != nil {
-		if err := s.prefixAllocator.Release(ctx, clientDUID); err != nil {
-			s.logger.Debug("Failed to release prefix from allocator",
+		if err := s.prefixAllocator.Release(ctx, clientDUID); err != nil && !errors.Is(err, allocator.ErrNotAllocated) {
+			s.logger.Warn("Failed to release prefix from allocator",
 				zap.String("duid", clientDUID),
 				zap.Error(err),
 			)
+			return err
 		}
-		return
+		return nil
 	}
 
 	if s.prefixPool != nil {
 		s.prefixPool.Release(clientDUID)
 	}
+	return nil
 }
 
 // hasAddressPool returns true if address allocation is configured.
